@@ -253,10 +253,31 @@ func controllerScenarios(tier string) []runner.Sc {
 		c.Pre = []ctl.Mut{{Op: "set", Name: "a", Labels: "l=1"}}
 		return ctl.Scenario("C13", c, orc)
 	}
+	// sustained event load: the controller needs 600 ms per event (slow filter) and one arrives every 300 ms for 9 s,
+	// so from the first event on there is always one waiting. Relisting must go on meanwhile; which of "event" and
+	// "list result" the controller takes when both are waiting is the scheduler's choice, so the universal form
+	// would need a fairness assumption - the obligation is the existential one: some schedule within the bound
+	// has made at least 4 List calls by t=17 s (a controller that drains the event queue before looking at anything
+	// else has made 2 on every schedule).
+	var load []ctl.Mut
+	for i := 0; i < 30; i++ {
+		load = append(load, ctl.Mut{Op: "set", Name: "a", Labels: fmt.Sprintf("l=%d", i%2), Delay: 300 * time.Millisecond})
+	}
+	const relists = "at least 4 List calls by t=17s while events keep arriving faster than they are applied"
+	loadOrc := func(in *ctl.Inst, r *vs.Result) []string {
+		if len(in.O.ListTimes) >= 4 {
+			in.Reach(relists)
+		}
+		return orc(in, r)
+	}
+	underLoad := ctl.Scenario("C13", ctl.Cfg{Name: "controller/relisting-under-sustained-event-load", Period: P, Mode: "S2", Bound: 1,
+		Pre: []ctl.Mut{{Op: "set", Name: "a", Labels: "l=1"}}, Hist: load, SlowOn: "a", SlowFor: 600 * time.Millisecond, ReadAt: 17 * time.Second}, loadOrc)
+	underLoad.Exists = []string{relists}
 	lat := func(d time.Duration) map[int]fakeapi.ListFault {
 		return map[int]fakeapi.ListFault{2: {Latency: d}, 3: {Latency: d}}
 	}
 	return []runner.Sc{
+		underLoad,
 		mk("fast-lists", ctl.Cfg{ReadAt: 8 * time.Second}),
 		mk("list-latency-half-period", ctl.Cfg{ListFaults: lat(1500 * time.Millisecond), ReadAt: 12 * time.Second}),
 		mk("list-latency-1.3-periods", ctl.Cfg{ListFaults: lat(4 * time.Second), ReadAt: 18 * time.Second}),
